@@ -154,12 +154,17 @@ Record tx := mkTx {
   t_path : list hop
 }.
 
+(* TransactionType::GoldenTicket *)
+Definition TT_GOLDEN_TICKET : N := 2.
+
+(* a GoldenTicket-type transaction carries a 97-byte GoldenTicket as its payload *)
 Definition wf_tx (t : tx) : bool :=
   (t_ts t <? two64) && (Nlen (t_from t) <=? 255) && forallb wf_slip (t_from t)
   && (Nlen (t_to t) <=? 255) && forallb wf_slip (t_to t)
   && (Nlen (t_data t) <? two32) && bytes_ok (t_data t)
   && (t_type t <? 9) && (t_repl t <? two32) && arr_ok 64 (t_sig t)
-  && (Nlen (t_path t) <? two32) && forallb wf_hop (t_path t).
+  && (Nlen (t_path t) <? two32) && forallb wf_hop (t_path t)
+  && (negb (t_type t =? TT_GOLDEN_TICKET) || (Nlen (t_data t) =? 97)).
 
 (* Transaction::serialize_for_net (= serialize_for_net_with_hop(None)) *)
 Definition encode_tx (t : tx) : list N :=
@@ -201,6 +206,10 @@ Definition decode_tx (bs : list N) : res tx :=
   do b_rep <- sl 307 88 92 bs;
   do ty <- ix 308 92 bs;
   if negb (ty <? 9) then Err else             (* FromPrimitive::from_u8 *)
+  (* fix 34b1724: the buffer must hold everything its header declares (u64 arithmetic) *)
+  let declared_len := TRANSACTION_SIZE + (inputs_len + outputs_len) * SLIP_SIZE + message_len
+                      + path_len * HOP_SIZE in
+  if Nlen bs <? declared_len then Err else
   let start_of_inputs := TRANSACTION_SIZE in
   let start_of_outputs := start_of_inputs + inputs_len * SLIP_SIZE in
   let start_of_message := start_of_outputs + outputs_len * SLIP_SIZE in
@@ -209,6 +218,8 @@ Definition decode_tx (bs : list N) : res tx :=
   do outputs <- dec_items 310 SLIP_SIZE decode_slip (length bs) outputs_len start_of_outputs bs;
   do message <- sl 311 start_of_message (start_of_message + message_len) bs;
   do path <- dec_items 312 HOP_SIZE decode_hop (length bs) path_len start_of_path bs;
+  (* fix eeb4ec7: the payload of a golden ticket transaction is a 97-byte GoldenTicket *)
+  if (ty =? TT_GOLDEN_TICKET) && negb (message_len =? 97) then Err else
   Ok (mkTx (be_dec b_ts) inputs outputs message ty (be_dec b_rep) sig path).
 
 (* the size a transaction buffer declares in its own 16-byte prefix *)
@@ -646,7 +657,8 @@ Definition encode_ghost (g : ghost_sync) : list N :=
 
 Definition nonzero_byte (x : list N) : bool := negb (be_dec x =? 0).
 
-(* GhostChainSync::deserialize — returns the struct, no Result *)
+(* GhostChainSync::deserialize — returns the struct, no Result; since fix 8fc45ed
+   "the caller must have checked the length": its only caller is deserialize_checked *)
 Definition decode_ghost (buffer0 : list N) : res ghost_sync :=
   do start <- sl 901 0 32 buffer0;
   do cb <- sl 902 32 36 buffer0;
@@ -666,6 +678,14 @@ Definition decode_ghost (buffer0 : list N) : res ghost_sync :=
   do gts <- dec_chunks 915 1 nonzero_byte (N.to_nat count) 0 buf6;
   Ok (mkGhost start prehashes prev_hashes block_ids block_ts txs gts).
 
+(* GhostChainSync::deserialize_checked (fix 8fc45ed), used by Message::deserialize *)
+Definition decode_ghost_checked (buffer : list N) : res ghost_sync :=
+  if Nlen buffer <? 36 then Err else
+  do cb <- sl 916 32 36 buffer;
+  let count := be_dec cb in
+  if Nlen buffer <? 36 + 82 * count then Err else
+  decode_ghost buffer.
+
 Definition eqb_lbool := eqb_list Bool.eqb.
 
 Definition eqb_ghost (a b : ghost_sync) : bool :=
@@ -683,8 +703,9 @@ Definition wf_api (a : api_message) : bool := (am_index a <? two32) && bytes_ok 
 
 Definition encode_api (a : api_message) : list N := concat [ be_enc 4 (am_index a); am_data a ].
 
-(* ApiMessage::deserialize — returns the struct, no Result *)
+(* ApiMessage::deserialize — a Result since fix 144e342 *)
 Definition decode_api (buffer : list N) : res api_message :=
+  if Nlen buffer <? 4 then Err else
   do ib <- sl 1001 0 4 buffer;
   do data <- sl_from 1002 4 buffer;
   Ok (mkApi (be_dec ib) data).
@@ -703,7 +724,9 @@ Definition wf_gt (g : golden_ticket) : bool :=
 
 Definition encode_gt (g : golden_ticket) : list N := concat [ gt_target g; gt_random g; gt_pk g ].
 
-(* GoldenTicket::deserialize_from_net — assert_eq!(bytes.len(), 97) *)
+(* GoldenTicket::deserialize_from_net — assert_eq!(bytes.len(), 97): an internal
+   invariant since fix eeb4ec7 (it is only called on the payload of a
+   GoldenTicket-type transaction, which the wire decoder forces to 97 bytes) *)
 Definition decode_gt (bs : list N) : res golden_ticket :=
   if negb (Nlen bs =? 97) then Panic 1301 else
   do t <- sl 1302 0 32 bs;
@@ -834,7 +857,7 @@ Definition decode_message_body (message_type : N) (buffer : list N) : res messag
   else if message_type =? 7 then Ok MPing
   else if message_type =? 8 then Ok MSPVChain
   else if message_type =? 9 then do l <- decode_services buffer; Ok (MServices l)
-  else if message_type =? 10 then do g <- decode_ghost buffer; Ok (MGhostChain g)
+  else if message_type =? 10 then do g <- decode_ghost_checked buffer; Ok (MGhostChain g)
   else if message_type =? 11 then
     if negb (Nlen buffer =? 72) then Err else
     do i <- sl 505 0 8 buffer;
@@ -907,19 +930,25 @@ Definition F_GT : N := 13.
 Definition F_WALLET : N := 14.
 
 (* class of the decoder outcome and, when Ok, the re-encoding of the value *)
+(* what the mempool / block validation do with a decoded transaction: a
+   GoldenTicket-type transaction's payload goes to GoldenTicket::deserialize_from_net *)
+Definition decode_tx_and_ticket (bs : list N) : res tx :=
+  do t <- decode_tx bs;
+  if t_type t =? TT_GOLDEN_TICKET then do g <- decode_gt (t_data t); Ok t else Ok t.
+
 Definition out {A} (enc : A -> list N) (r : res A) : N * list N :=
   match r with Ok v => (0, enc v) | Err => (1, []) | Panic _ => (2, []) end.
 
 Definition run_decoder (fmt : N) (bs : list N) : N * list N :=
   if fmt =? F_SLIP then out encode_slip (decode_slip bs)
   else if fmt =? F_HOP then out encode_hop (decode_hop bs)
-  else if fmt =? F_TX then out encode_tx (decode_tx bs)
+  else if fmt =? F_TX then out encode_tx (decode_tx_and_ticket bs)
   else if fmt =? F_BLOCK then out (encode_block BT_FULL) (decode_block bs)
   else if fmt =? F_MESSAGE then out encode_message (decode_message bs)
   else if fmt =? F_HS_CHALLENGE then out encode_hs_challenge (decode_hs_challenge bs)
   else if fmt =? F_HS_RESPONSE then out encode_hs_response (decode_hs_response bs)
   else if fmt =? F_BC_REQUEST then out encode_bc_request (decode_bc_request bs)
-  else if fmt =? F_GHOST then out encode_ghost (decode_ghost bs)
+  else if fmt =? F_GHOST then out encode_ghost (decode_ghost_checked bs)
   else if fmt =? F_API then out encode_api (decode_api bs)
   else if fmt =? F_SERVICES then out encode_services (decode_services bs)
   else if fmt =? F_VERSION then out encode_version (decode_version bs)
@@ -930,26 +959,9 @@ Definition run_decoder (fmt : N) (bs : list N) : N * list N :=
 Definition decoder_class (fmt : N) (bs : list N) : N := fst (run_decoder fmt bs).
 
 (* ------------------------------------------------------------------ *)
-(* Known_C10 classes: the inputs that reach an unguarded slice/assert  *)
+(* Known_C10 class: the inputs that reach an unguarded slice            *)
+(* (transaction, ghost chain, api message, golden ticket were repaired *)
+(* in /repo: 34b1724, 8fc45ed, 144e342, eeb4ec7)                       *)
 (* ------------------------------------------------------------------ *)
 
-(* transaction: the 93-byte header is there and declares more than is present *)
-Definition known_c10_tx (bs : list N) : bool :=
-  (TRANSACTION_SIZE <=? Nlen bs) && (Nlen bs <? tx_declared_size bs).
-
-(* ghost chain sync: shorter than 36 + 82*count *)
-Definition ghost_declared_size (bs : list N) : N :=
-  match slice 32 36 bs with Some c => 36 + 82 * be_dec c | None => 36 end.
-Definition known_c10_ghost (bs : list N) : bool := Nlen bs <? ghost_declared_size bs.
-
-Definition known_c10_api (bs : list N) : bool := Nlen bs <? 4.
-Definition known_c10_gt (bs : list N) : bool := negb (Nlen bs =? 97).
 Definition known_c10_wallet (bs : list N) : bool := Nlen bs <? WALLET_SIZE.
-
-(* message: tag 4 (transaction) or tag 10 (ghost chain) with such a payload *)
-Definition known_c10_message (bs : list N) : bool :=
-  match bs with
-  | 4 :: rest => known_c10_tx rest
-  | 10 :: rest => known_c10_ghost rest
-  | _ => false
-  end.
